@@ -13,6 +13,7 @@ from concurrent.futures import ThreadPoolExecutor
 
 VERIF = os.path.dirname(os.path.dirname(os.path.abspath(__file__)))
 ROOT = '/tmp/sw'
+SUB = 'seeded'
 
 
 def sh(cmd, **kw):
@@ -36,7 +37,7 @@ def work(k, names, out):
     vf = os.path.join(d, 'verif')
     env = dict(os.environ, VERIF_REPO=rp)
     for name in names:
-        sd = os.path.join(VERIF, 'seeded', name)
+        sd = os.path.join(VERIF, SUB, name)
         meta = json.load(open(os.path.join(sd, 'meta.json')))
         props = meta.get('checks') or [meta['property']]
         r = sh(['git', '-C', rp, 'apply', os.path.join(sd, 'patch.diff')])
@@ -58,9 +59,14 @@ def work(k, names, out):
 def main():
     args = sys.argv[1:]
     k = 6
-    if args and args[0] == '-j':
-        k = int(args[1]); args = args[2:]
-    names = sorted(n for n in os.listdir(os.path.join(VERIF, 'seeded')) if os.path.isdir(os.path.join(VERIF, 'seeded', n)))
+    global SUB
+    while args and args[0] in ('-j', '--dir'):
+        if args[0] == '-j':
+            k = int(args[1])
+        else:
+            SUB = args[1]       # 'seeded' (property-breaking changes) or 'harmless' (property-preserving refactorings)
+        args = args[2:]
+    names = sorted(n for n in os.listdir(os.path.join(VERIF, SUB)) if os.path.isdir(os.path.join(VERIF, SUB, n)))
     if args:
         names = [n for n in names if n in args or n.split('_')[0] in args]
     # longest checks first, round-robin
@@ -74,7 +80,7 @@ def main():
         futs = [ex.submit(work, i, buckets[i], out) for i in range(k)]
         for f in futs:
             f.result()
-    rp = os.path.join(VERIF, 'seeded', 'RESULTS.json')
+    rp = os.path.join(VERIF, SUB, 'RESULTS.json')
     allres = json.load(open(rp)) if os.path.exists(rp) else {}
     allres.update(out)
     json.dump(allres, open(rp, 'w'), indent=1, sort_keys=True)
